@@ -45,6 +45,7 @@ fn judge(o: &mut Outcome, l: &Lowered, ops: &[COp], fin: usize, script: &Script,
         Script::FailAtByte { .. } => "fail_at_byte",
         Script::Schedule { terminal: Some(_), .. } => "schedule_with_terminal",
         Script::Schedule { .. } => "benign_schedule",
+        Script::PanicAtCall { .. } => "sink_panics",
     };
     if let Some(p) = &run.panic {
         o.fail("no_panic", format!("no_panic.{}", tag), format!("panic under {:?}: {}", script, p));
@@ -149,21 +150,24 @@ pub fn eval(c: &FaultCase) -> Outcome {
     let mut n_scripts = 0u64;
     if c.exhaustive {
         'outer: for call in 0..r.n_calls {
-            for kind in 0..8u8 {
+            for kind in 0..N_KINDS {
                 n_scripts += 1;
                 if !run_one(&mut o, Script::FailAtCall { call, kind }, nsamples >= 2 && call > 0) {
                     break 'outer;
                 }
             }
             n_scripts += 1;
-            if !run_one(&mut o, Script::FailOnceAtCall { call, kind: [0u8, 1, 2, 3, 4, 5, 7][call % 7] }, nsamples >= 2 && call > 0) {
-                break 'outer;
+            for kind in [[0u8, 1, 2, 3, 4, 5, 7][call % 7], 8 + (call % 12) as u8] {
+                n_scripts += 1;
+                if !run_one(&mut o, Script::FailOnceAtCall { call, kind }, nsamples >= 2 && call > 0) {
+                    break 'outer;
+                }
             }
         }
         if o.violations.is_empty() {
             for offset in 0..n {
                 n_scripts += 1;
-                let kind = (offset % 8) as u8;
+                let kind = (offset % N_KINDS as usize) as u8;
                 if !run_one(&mut o, Script::FailAtByte { offset, kind }, nsamples >= 2 && offset > 0) {
                     break;
                 }
@@ -171,13 +175,13 @@ pub fn eval(c: &FaultCase) -> Outcome {
         }
     } else if c.every_call {
         'calls: for call in 0..r.n_calls {
-            for kind in [0u8, 5, 6, 7] {
+            for kind in [0u8, 5, 6, 7, 8, 11] {
                 n_scripts += 1;
                 if !run_one(&mut o, Script::FailAtCall { call, kind }, nsamples >= 2 && call > 0) {
                     break 'calls;
                 }
             }
-            for kind in [0u8, 7] {
+            for kind in [0u8, 7, 8, 11] {
                 n_scripts += 1;
                 if !run_one(&mut o, Script::FailOnceAtCall { call, kind }, nsamples >= 2 && call > 0) {
                     break 'calls;
@@ -199,19 +203,19 @@ pub fn eval(c: &FaultCase) -> Outcome {
         for k in 0..40usize {
             let offset = (k * 7919 + 13) % n.max(1);
             n_scripts += 1;
-            if !run_one(&mut o, Script::FailAtByte { offset, kind: (k % 8) as u8 }, nsamples >= 2 && offset > 0) {
+            if !run_one(&mut o, Script::FailAtByte { offset, kind: (k % N_KINDS as usize) as u8 }, nsamples >= 2 && offset > 0) {
                 break;
             }
             let call = (k * 31 + 1) % r.n_calls.max(1);
             n_scripts += 1;
-            if !run_one(&mut o, Script::FailOnceAtCall { call, kind: [0u8, 1, 2, 3, 4, 5, 7][k % 7] }, nsamples >= 2 && call > 0) {
+            if !run_one(&mut o, Script::FailOnceAtCall { call, kind: [0u8, 1, 2, 3, 4, 5, 7, 8, 11, 12, 13, 14][k % 12] }, nsamples >= 2 && call > 0) {
                 break;
             }
         }
     }
     if o.violations.is_empty() {
         for (pattern, terminal) in &c.schedules {
-            let terminal = terminal.map(|(off, k)| ((off as usize) % n.max(1), k % 8));
+            let terminal = terminal.map(|(off, k)| ((off as usize) % n.max(1), k % N_KINDS));
             n_scripts += 1;
             if !run_one(&mut o, Script::Schedule { pattern: pattern.clone(), terminal }, nsamples >= 2) {
                 break;
